@@ -371,6 +371,11 @@ def main():
                   open(replay_path, "w"), indent=1)
         lines.append(f"VIOLATION property={pid} replay={replay_path} no-failing-input-found")
 
+    else:
+        # nothing to replay: a file left by an earlier failing run would mislead
+        if os.path.exists(replay_path):
+            os.remove(replay_path)
+
     wall = time.time() - t_start
     coverage = {
         "obligations": proof["obligations"],
